@@ -464,9 +464,10 @@ func (vc *VC) loadFacts(x ssa.Value, l *LV) {
 func (vc *VC) store(x *ssa.Store) {
 	sp := vc.safetyProps()
 	v := vc.v(x.Val)
+	vc.sharedWriteCheck(x.Pos(), x.Addr)
 	if l, ok := vc.lv[x.Addr]; ok {
 		if l.nnKey != "" && (vc.e.cs.NonNilField[l.nnKey] || vc.e.cs.NonNilElem[l.nnKey]) && canBeNil(l.typ) {
-			if ob := vc.check("nonnil-store", x.Pos(), "", Not(vc.isNil(v, l.typ)), sp); ob != nil {
+			if ob := vc.check("nonnil-store", x.Pos(), "", Not(vc.isNil(v, l.typ)), append(append([]string{}, sp...), vc.e.cs.NonNilFieldProps[l.nnKey]...)); ob != nil {
 				ob.Detail = l.nnKey
 			}
 		}
@@ -492,7 +493,7 @@ func (vc *VC) store(x *ssa.Store) {
 }
 
 func (vc *VC) disciplineStore(x *ssa.Store, l *LV, v Term) {
-	if props, ok := vc.e.cs.ImmutableField[l.nnKey]; ok && l.nnKey != "" && len(l.idx) == 1 {
+	if props, ok := vc.e.cs.ImmutableField[l.nnKey]; ok && l.nnKey != "" && len(l.idx) == 1 && !interiorOfLocal(x.Addr) {
 		// objects of this kind are shared between checks: only their creator may initialise them
 		if len(props) == 0 {
 			props = []string{"C09"}
@@ -867,6 +868,7 @@ func (vc *VC) mapUpdate(x *ssa.MapUpdate) {
 	mt := x.Map.Type().Underlying().(*types.Map)
 	m, k, v := vc.v(x.Map), vc.v(x.Key), vc.v(x.Value)
 	vc.check("nil-map", x.Pos(), "", Ne(m, "0"), sp)
+	vc.sharedWriteCheck(x.Pos(), x.Map)
 	if vc.e.cs.NonNilElem[vc.e.typeName(x.Map.Type())] && canBeNil(mt.Elem()) {
 		if ob := vc.check("nonnil-store", x.Pos(), "", Not(vc.isNil(v, mt.Elem())), sp); ob != nil {
 			ob.Detail = vc.e.typeName(x.Map.Type())
@@ -1048,10 +1050,21 @@ func (vc *VC) ret(x *ssa.Return) {
 				}
 			}
 		}
-		ce.err = nil
-		t, wfs := ce.evalWithSides(bc.Cond)
-		if ce.err != nil {
-			vc.unsupp("body_calls %q: %v", bc.Text, ce.err)
+		// parameters denote entry values, other names the local variables in scope at this return
+		saved := vc.evalPos
+		vc.evalPos = x.Pos()
+		le := vc.envAt(vc.blk, vc.cur, nil)
+		vc.evalPos = saved
+		for name, v := range ce.vars {
+			if _, has := le.vars[name]; !has {
+				le.vars[name] = v
+			}
+		}
+		le.result = ce.result
+		le.resNm = ce.resNm
+		t, wfs := le.evalWithSides(bc.Cond)
+		if le.err != nil {
+			vc.unsupp("body_calls %q: %v", bc.Text, le.err)
 			continue
 		}
 		pr := props
@@ -1080,4 +1093,92 @@ func (vc *VC) ret(x *ssa.Return) {
 		}
 		vc.check("ensures", x.Pos(), c.Text, t.t, pr)
 	}
+}
+
+// sharedWriteCheck (C09/C10): the package-level tables (built-in variable and function types, popular
+// actions, webhook and permission tables, ...) are shared by every file, job and expression of a run.
+// A store whose target is reached from a package-level variable - the variable's map or slice itself, or
+// an object found by looking one up in it - modifies what every later check sees. Package initialisers
+// are exempt.
+func (vc *VC) sharedWriteCheck(pos token.Pos, target ssa.Value) {
+	if vc.fn.Name() == "init" || strings.HasPrefix(vc.fn.Name(), "init#") || vc.fn.Synthetic != "" {
+		return
+	}
+	var g *ssa.Global
+	var from func(v ssa.Value, d int) bool
+	from = func(v ssa.Value, d int) bool {
+		if d > 10 {
+			return false
+		}
+		switch y := v.(type) {
+		case *ssa.Global:
+			// only tables: maps, slices, pointers to structs held in package variables
+			if y.Pkg != vc.e.pkg {
+				return false
+			}
+			switch deref(y.Type()).Underlying().(type) {
+			case *types.Map, *types.Slice, *types.Pointer, *types.Interface:
+				g = y
+				return true
+			}
+			return false
+		case *ssa.UnOp:
+			return y.Op == token.MUL && from(y.X, d+1)
+		case *ssa.Lookup:
+			return from(y.X, d+1)
+		case *ssa.Extract:
+			return from(y.Tuple, d+1)
+		case *ssa.TypeAssert:
+			return from(y.X, d+1)
+		case *ssa.FieldAddr:
+			return from(y.X, d+1)
+		case *ssa.IndexAddr:
+			return from(y.X, d+1)
+		case *ssa.Index:
+			return from(y.X, d+1)
+		case *ssa.Field:
+			return from(y.X, d+1)
+		case *ssa.Slice:
+			return from(y.X, d+1)
+		case *ssa.ChangeType:
+			return from(y.X, d+1)
+		case *ssa.MakeInterface:
+			return from(y.X, d+1)
+		case *ssa.Phi:
+			for _, e := range y.Edges {
+				if from(e, d+1) {
+					return true
+				}
+			}
+		}
+		return false
+	}
+	// a store directly to the variable (re-binding it) is a write to a global cell, handled as state;
+	// what is checked here is a write INTO the table
+	if _, direct := target.(*ssa.Global); direct {
+		return
+	}
+	if !from(target, 0) {
+		return
+	}
+	if ob := vc.check("shared-write", pos, "", "false", []string{"C09", "C10"}); ob != nil && g != nil {
+		ob.Detail = g.Name()
+	}
+}
+
+// interiorOfLocal: the address points into a local (stack / composite literal) allocation.
+func interiorOfLocal(a ssa.Value) bool {
+	for d := 0; d < 10; d++ {
+		switch y := a.(type) {
+		case *ssa.FieldAddr:
+			a = y.X
+		case *ssa.IndexAddr:
+			a = y.X
+		case *ssa.Alloc:
+			return true
+		default:
+			return false
+		}
+	}
+	return false
 }
